@@ -71,6 +71,20 @@ def type_twins(rng, t: dict) -> list[dict]:
     return ded
 
 
+def same_union_order(a, b) -> bool:
+    ua = [tuple(core.jdump(x) for x in n["a"]) for n in twalk(a) if n["k"] == "union"]
+    ub = [tuple(core.jdump(x) for x in n["a"]) for n in twalk(b) if n["k"] == "union"]
+    la = [n["v"] for n in twalk(a) if n["k"] == "lit"]
+    lb = [n["v"] for n in twalk(b) if n["k"] == "lit"]
+    return ua == ub and la == lb
+
+
+def order_preserving_twins(rng, t):
+    """Spelling twins only (typing vs builtin, Optional vs |): member order kept.  Reordered
+    unions are the business of C08/C12, where the union-order-alias finding is attributed."""
+    return [x for x in type_twins(rng, t) if same_union_order(t, x)]
+
+
 # ---------------------------------------------------------------------------- value twins
 
 
